@@ -669,15 +669,23 @@ def resource_wait(ctx, o):
         g2 = ctx.graph(c, cb)
         an2 = Analysis(P, g2, tracked)
         an2.node_hooks.append(dv.notify_hook)
-        s0 = State({'_part': 'N', '_output': 'N', '_is_shut_down': 'F', '_block_input': 'F', '_waiting_for_resources': 'T',
-                    '_reserved_resources': 'N', '_resources_for_processing': 'S'})
-        res = ctx.explore(an2, [s0])
-        for st in res.exits():
-            o.count()
-            o.witness(('callback', cb))
-            if st.fields['_waiting_for_resources'] != 'F' or 'notified' not in st.flags:
-                o.fail(P, f'PartProcessor.{cb}', cb, 'the resource callback must clear the waiting flag and notify the upstream devices',
-                       file=c.mod.path, line=P.method(c, cb)[1].lineno, path=res.path_lines(g2.exit, st))
+        # The manager has forgotten the request when it calls back, whatever state the device is in by then (a machine can be shut down
+        # or blocked while it waits): the flag must be cleared in every state, or _can_accept_part never registers again and no later
+        # release reaches this device (seeded change C03-23: a guard `if not self.is_operational(): return` in front of the reset).
+        for down, blocked in (('F', 'F'), ('T', 'F'), ('F', 'T'), ('T', 'T')):
+            s0 = State({'_part': 'N', '_output': 'N', '_is_shut_down': down, '_block_input': blocked, '_waiting_for_resources': 'T',
+                        '_reserved_resources': 'N', '_resources_for_processing': 'S'})
+            res = ctx.explore(an2, [s0])
+            for st in res.exits():
+                o.count()
+                o.witness(('callback', cb, down, blocked))
+                if st.fields['_waiting_for_resources'] != 'F':
+                    o.fail(P, f'PartProcessor.{cb}', cb, 'the resource callback must clear the waiting flag in every state of the device (the manager has already '
+                           f'dropped the request; here: shut down={down}, input blocked={blocked}) -- otherwise the device never asks again',
+                           file=c.mod.path, line=P.method(c, cb)[1].lineno, path=res.path_lines(g2.exit, st))
+                elif 'notified' not in st.flags and down == 'F' and blocked == 'F':
+                    o.fail(P, f'PartProcessor.{cb}', cb, 'the resource callback must clear the waiting flag and notify the upstream devices',
+                           file=c.mod.path, line=P.method(c, cb)[1].lineno, path=res.path_lines(g2.exit, st))
     # the flag has no other writer
     for s in inv.attr_stores(P, '_waiting_for_resources'):
         o.count()
